@@ -757,3 +757,35 @@ Theorem C03_knuth_rs_matches_model_at_call_site : forall w N a b,
   Done (Div.basecase_div_rem w a b (Div.last_digit_index b + 1)).
 Proof. exact divgen_basecase_callsite. Qed.
 Print Assumptions C03_knuth_rs_matches_model_at_call_site.
+(* ==== glue tie, round 2 (text written by tools/mk_gluetie.py; keep at the END of the file) ==== *)
+(* ---- tie to the source, second round: the non-loop functions (div_euclid, rem_euclid, div_floor, div_ceil, next_multiple_of, checked_next_multiple_of; bint div_rem_unchecked, overflowing_div, overflowing_div_euclid, overflowing_rem_euclid; the inherent div / rem of const_trait_fillers.rs) REGENERATED from /repo/src on every run
+   (Generated/Glue.v, tools/rs2v_glue.py) are the model's, function by function, for every digit width, digit count,
+   build mode and operand (no well-formedness hypothesis): an edit of the source that changes what one of these
+   functions computes or delegates to breaks this theorem ---- *)
+From Bnum.Model Require Import Digit Core Shift AddSub Mul Div Bits Pow.
+From Bnum.Model Require Ops NumTraits.
+From Bnum.Generated Require Import Glue.
+From Bnum.Proofs Require Import GlueTieCommon GlueTieC03.
+Theorem C03_glue2_rs_matches_model :
+  (forall w a b, Glue.U_div_euclid w a b = U_div_euclid w a b) /\
+  (forall w a b, Glue.U_rem_euclid w a b = U_rem_euclid w a b) /\
+  (forall dbg w a b, Glue.U_next_multiple_of dbg w a b = U_next_multiple_of dbg w a b) /\
+  (forall w a b, Glue.U_div_floor w a b = U_div_floor w a b) /\
+  (forall dbg w a b, Glue.U_div_ceil dbg w a b = U_div_ceil dbg w a b) /\
+  (forall dbg w a b, Glue.I_div_euclid dbg w a b = I_div_euclid dbg w a b) /\
+  (forall dbg w a b, Glue.I_rem_euclid dbg w a b = I_rem_euclid dbg w a b) /\
+  (forall dbg w a b, Glue.I_next_multiple_of dbg w a b = I_next_multiple_of dbg w a b) /\
+  (forall dbg w a b, Glue.I_div_floor dbg w a b = I_div_floor dbg w a b) /\
+  (forall dbg w a b, Glue.I_div_ceil dbg w a b = I_div_ceil dbg w a b) /\
+  (forall dbg w a b, Glue.U_checked_next_multiple_of dbg w a b = U_checked_next_multiple_of dbg w a b) /\
+  (forall dbg w a b, Glue.I_checked_next_multiple_of dbg w a b = I_checked_next_multiple_of dbg w a b) /\
+  (forall dbg w a b, Glue.I_div_rem_unchecked dbg w a b = I_div_rem_unchecked dbg w a b) /\
+  (forall dbg w a b, Glue.I_overflowing_div dbg w a b = I_overflowing_div dbg w a b) /\
+  (forall dbg w a b, Glue.I_overflowing_div_euclid dbg w a b = I_overflowing_div_euclid dbg w a b) /\
+  (forall dbg w a b, Glue.I_overflowing_rem_euclid dbg w a b = I_overflowing_rem_euclid dbg w a b) /\
+  (forall w a b, Glue.U_div w a b = U_div w a b) /\
+  (forall w a b, Glue.U_rem w a b = U_rem w a b) /\
+  (forall dbg w a b, Glue.I_div dbg w a b = I_div dbg w a b) /\
+  (forall dbg w a b, Glue.I_rem dbg w a b = I_rem dbg w a b).
+Proof. exact glue_div2_matches_model. Qed.
+Print Assumptions C03_glue2_rs_matches_model.
